@@ -1,6 +1,7 @@
 (* C11 — Happy-eyeballs attempts are paced, ordered, bounded and meet the deadline.
-   Statements only; proofs in he/Proofs.v.  Quantification as in C10. *)
-From HD Require Import common.Base he.Model he.Spec he.Proofs.
+   Statements only; proofs in he/Proofs.v and he/ProofsPace.v (the two pacing clauses).
+   Quantification as in C10. *)
+From HD Require Import common.Base he.Model he.Spec he.Proofs he.ProofsPace.
 
 (* started in the given order, each candidate at most once, a later candidate never before an
    earlier one; every completion belongs to a started attempt, exactly its latency later *)
@@ -27,11 +28,30 @@ Proof.
 Qed.
 Print Assumptions c11_deadline.
 
-(* PARTIAL: the full monitor is mon_C11 = s_order && s_initial && s_pace && s_unstarted &&
-   s_deadline.  Proved here: the conjunction without the two pacing clauses (s_pace: every
-   later start is triggered by the stagger timer / a failure / an empty set, and happens as soon
-   as that trigger; s_unstarted: the same for candidates never started).  The pacing clauses are
-   checked on every implementation trace and on the model by the correspondence run. *)
+(* pacing, never earlier / as soon as: every start after the initial batch happens at the least
+   time >= the beginning of its wait (the start of the previous candidate) at which the stagger
+   timer armed at the beginning of the wait fires, an earlier-started attempt fails, or the task
+   set is empty; no failure of an earlier candidate lies strictly inside the wait *)
+Theorem c11_pace : forall c tb atts, s_pace c atts (he_obs c tb atts) = true.
+Proof. exact s_pace_holds. Qed.
+Print Assumptions c11_pace.
+
+(* candidates never started: the run ended before their trigger (no later than the stagger timer
+   of their wait, no failure strictly inside it; part of the initial batch is left unpolled only
+   by a success at time 0) *)
+Theorem c11_unstarted : forall c tb atts, s_unstarted c atts (he_obs c tb atts) = true.
+Proof. exact s_unstarted_holds. Qed.
+Print Assumptions c11_unstarted.
+
+(* The FULL monitor mon_C11 = s_order && s_initial && s_pace && s_unstarted && s_deadline is
+   proved for every configuration, tie-break oracle and attempt script: nothing about C11 is
+   left to the correspondence run except the model/implementation agreement itself. *)
+Theorem c11_monitor : forall c tb atts, mon_C11 c atts (he_obs c tb atts) = true.
+Proof. exact mon_C11_holds. Qed.
+Print Assumptions c11_monitor.
+
+(* the earlier, weaker statement (the conjunction without the two pacing clauses), kept for
+   reference; it is implied by c11_monitor *)
 Theorem c11_monitor_partial : forall c tb atts, mon_C11_proved c atts (he_obs c tb atts) = true.
 Proof. exact mon_C11_proved_holds. Qed.
 Check c11_monitor_partial : forall c tb atts,
